@@ -264,6 +264,9 @@ def check_readback(ctx, rx, src):
                         if T.ring_diene_ct(m1):
                             ctx.exclude('ring-diene-writer (recorded finding of C02)', {'reaction': s})
                             continue
+                        if T.ct_implied_by_neighbours(m1):
+                            ctx.exclude('smiles-cannot-leave-a-bond-between-labelled-neighbours-open', {'reaction': s})
+                            continue
                         ctx.violation('readback-molecule-differs/%s' % role, '%s: %s' % (text, T.diff_records(r1, r2)[:2]), w)
                         return
     if back_radicals(rx) != back_radicals(back):
